@@ -145,6 +145,14 @@ type Cfg struct {
 	QInt    int64     `json:"-"` // int quantum
 	Class   string    `json:"-"`
 	Gauge   bool      `json:"-"` // NoSum through a Gauge instead of an UpDownCounter
+
+	// routes.go: the boundary list AS CONFIGURED (ranks, any order, duplicates), the route by which
+	// the aggregation reaches the stream (HistModel!Routes; "" = the NewView mask of newRunner),
+	// the ranks of the boundaries the reader falls back to when a route refuses the list
+	CBounds  []int  `json:"cbounds,omitempty"`
+	Route    string `json:"route,omitempty"`
+	Fallback []int  `json:"fallback,omitempty"`
+	refused  bool   // instrument creation returned an error (routes.go)
 }
 
 type errCounter struct{ n int }
@@ -209,6 +217,9 @@ func newRunner(c *Cfg) *Runner {
 		temp = metricdata.CumulativeTemporality
 	}
 	r := &Runner{cfg: c, ctx: context.Background()}
+	if c.Route != "" {
+		return newRouteRunner(c, r, temp) // routes.go
+	}
 	r.reader = sdkmetric.NewManualReader(sdkmetric.WithTemporalitySelector(
 		func(sdkmetric.InstrumentKind) metricdata.Temporality { return temp }))
 	view := sdkmetric.NewView(sdkmetric.Instrument{Name: "h"}, sdkmetric.Stream{Aggregation: aggOf(c)})
@@ -532,6 +543,7 @@ type HObs struct {
 	Sumok    bool    `json:"sumok"`
 	Sumz     bool    `json:"sumz"`
 	Shape    string  `json:"shape"`
+	Bounds   []int   `json:"bounds"` // ranks of the boundaries AS REPORTED (-1: not a configured / fallback boundary)
 }
 
 func u2i(u []uint64) []int64 {
@@ -633,13 +645,17 @@ func projectExpoDP[N int64 | float64](s *ScenCtx, dp metricdata.ExponentialHisto
 func projectExpo(s *ScenCtx, agg metricdata.Aggregation, shape string) EObs {
 	switch h := agg.(type) {
 	case nil:
+		if s.cfg.refused {
+			shape = "rejected" // instrument creation returned an error (routes.go)
+		}
 		return absentE(shape)
 	case metricdata.ExponentialHistogram[float64]:
 		return projectExpoT(s, h, shape)
 	case metricdata.ExponentialHistogram[int64]:
 		return projectExpoT(s, h, shape)
 	}
-	if s.cfg.MaxScale < -10 {
+	if s.cfg.MaxScale < -10 || s.cfg.Route != "" {
+		// (routes.go: another aggregation kind = the route refused the configuration; Trace_Hist decides if it may)
 		// a maximum scale below the minimum is not a valid configuration: refusing it (the stream
 		// then falls back to another aggregation) is a conforming answer
 		return absentE("rejected")
@@ -648,7 +664,7 @@ func projectExpo(s *ScenCtx, agg metricdata.Aggregation, shape string) EObs {
 }
 
 func absentH(shape string) HObs {
-	return HObs{Counts: []int64{}, Min: -1, Max: -1, Sumok: true, Sumz: true, Boundsok: true, Shape: shape}
+	return HObs{Counts: []int64{}, Min: -1, Max: -1, Sumok: true, Sumz: true, Boundsok: true, Shape: shape, Bounds: []int{}}
 }
 
 func projectHistT[N int64 | float64](s *ScenCtx, h metricdata.Histogram[N], shape string) HObs {
@@ -672,7 +688,10 @@ func projectHistDP[N int64 | float64](s *ScenCtx, dp metricdata.HistogramDataPoi
 		ok = want[i] == dp.Bounds[i]
 	}
 	o := HObs{Present: true, Nb: len(dp.Bounds), Boundsok: ok, Counts: u2i(dp.BucketCounts), Count: capU(dp.Count),
-		Min: extremaRank(s, dp.Min), Max: extremaRank(s, dp.Max), Shape: shape}
+		Min: extremaRank(s, dp.Min), Max: extremaRank(s, dp.Max), Shape: shape, Bounds: []int{}}
+	for _, b := range dp.Bounds {
+		o.Bounds = append(o.Bounds, s.rankOf(new(big.Float).SetPrec(53).SetFloat64(b)))
+	}
 	sf, si := sumParts(dp.Sum)
 	var skipped bool
 	o.Sumq, o.Sumok, skipped = s.sumInfo(sf, si)
@@ -748,11 +767,17 @@ func fpAggregation(agg metricdata.Aggregation) string {
 func projectHist(s *ScenCtx, agg metricdata.Aggregation, shape string) HObs {
 	switch h := agg.(type) {
 	case nil:
+		if s.cfg.refused {
+			shape = "rejected"
+		}
 		return absentH(shape)
 	case metricdata.Histogram[float64]:
 		return projectHistT(s, h, shape)
 	case metricdata.Histogram[int64]:
 		return projectHistT(s, h, shape)
+	}
+	if s.cfg.Route != "" {
+		return absentH("rejected") // another aggregation kind: the route refused the configuration (Trace_Hist decides if it may)
 	}
 	return absentH(fmt.Sprintf("aggregation %T", agg))
 }
@@ -917,6 +942,7 @@ type edgeAct struct {
 	I    int    `json:"i"`
 	Path string `json:"path"`
 	D    string `json:"d"` // destination class of a Collect
+	Rt   string `json:"rt"` // route of a Configure (Histogram.tla)
 }
 
 var destClasses = []string{"fresh", "own", "same", "other"}
@@ -1241,7 +1267,14 @@ type hVal struct {
 }
 
 func replayExpl(g *vh.Graph, c *Cfg, vals []hVal, rep int, tw *vh.TraceWriter, res *vh.Result, sample int) {
-	nb := len(c.Bounds)
+	if c.CBounds == nil {
+		c.CBounds = c.Bounds
+	}
+	distinct := map[int]bool{}
+	for _, br := range c.CBounds {
+		distinct[br] = true
+	}
+	nb := len(distinct) // the distinct boundaries have ranks 2, 4, .., 2*nb
 	c.IsInt = rep == 3 || rep == 4
 	c.Quant = rep <= 4
 	switch rep {
@@ -1256,7 +1289,7 @@ func replayExpl(g *vh.Graph, c *Cfg, vals []hVal, rep int, tw *vh.TraceWriter, r
 	}
 	var table []ranked
 	c.FBounds = nil
-	for _, br := range c.Bounds {
+	for _, br := range c.CBounds { // as configured: any order, duplicates
 		m, _ := concretizeExpl(c, nb, br, rep, true)
 		f := m.asFloat(c.IsInt)
 		c.FBounds = append(c.FBounds, f)
@@ -1300,11 +1333,14 @@ func replayExpl(g *vh.Graph, c *Cfg, vals []hVal, rep int, tw *vh.TraceWriter, r
 		}
 		var ops []SOp
 		var acts []edgeAct
+		route := c.Route
 		for _, r := range append(pathRaw, e.Act) {
 			var a edgeAct
 			vh.Must(json.Unmarshal(r, &a))
 			acts = append(acts, a)
-			if a.Op == "Collect" {
+			if a.Op == "Configure" {
+				route = a.Rt
+			} else if a.Op == "Collect" {
 				ops = append(ops, SOp{Collect: true, D: a.D})
 			} else {
 				v := vals[a.I-1]
@@ -1329,6 +1365,8 @@ func replayExpl(g *vh.Graph, c *Cfg, vals []hVal, rep int, tw *vh.TraceWriter, r
 		for ci, cls := range classes {
 			cc := *c
 			cc.Gauge = (i+ci)%3 == 0
+			cc.Route = route
+			counters.Count("route_"+route, 1)
 			lines, obs, p := execScenario(i*4+ci, &cc, dedup, ops, cls)
 			res.Executed++
 			if p != nil {
@@ -1960,6 +1998,8 @@ func main() {
 		random(os.Args[2:])
 	case "worlds":
 		worlds(os.Args[2:])
+	case "routes":
+		routesCmd(os.Args[2:]) // routes.go
 	default:
 		os.Exit(3)
 	}
